@@ -16,6 +16,8 @@ import (
 	"sort"
 	"strings"
 	"time"
+
+	"github.com/Vedant9500/WTF/internal/utils"
 )
 
 // SearchEntry represents a single search in the history
@@ -106,7 +108,7 @@ func (sh *SearchHistory) Save() error {
 		return fmt.Errorf("failed to marshal history: %w", err)
 	}
 
-	err = os.WriteFile(sh.FilePath, data, 0644)
+	err = utils.WriteFileAtomic(sh.FilePath, data, 0644)
 	if err != nil {
 		return fmt.Errorf("failed to write history file: %w", err)
 	}
